@@ -75,6 +75,8 @@ pub trait ShapeDyn: Send + Sync {
     /// `a == b`, `a.cmp(b)` are not available generically; compare two mapped images through
     /// the accessors instead (content equality of the safe views)
     fn same_content(&self, a: &[u8], b: &[u8]) -> Result<bool, Error>;
+    /// the type's own `==` / `partial_cmp` on two mapped images (None: the type has no such impl)
+    fn eq_real(&self, a: &[u8], b: &[u8]) -> Result<Option<(bool, Option<core::cmp::Ordering>)>, Error>;
 }
 
 pub struct ShapeOf<T: ?Sized> {
@@ -154,5 +156,8 @@ impl<T: Node + ?Sized + 'static> ShapeDyn for ShapeOf<T> {
     }
     fn same_content(&self, a: &[u8], b: &[u8]) -> Result<bool, Error> {
         Ok(T::from_bytes(a)?.read() == T::from_bytes(b)?.read())
+    }
+    fn eq_real(&self, a: &[u8], b: &[u8]) -> Result<Option<(bool, Option<core::cmp::Ordering>)>, Error> {
+        Ok(T::from_bytes(a)?.eq_real(T::from_bytes(b)?))
     }
 }
